@@ -91,3 +91,19 @@ Print Assumptions C02_code_values.
 Theorem C02_code_linspace : forall c s nsig npts lb ub, gen_lin c s nsig npts lb ub = lin ROps c s nsig npts lb ub.
 Proof. exact code_lin_is_model. Qed.
 Print Assumptions C02_code_linspace.
+
+(* what every calculator receives is normalised: the module-level get_weights of the current weights.py returns
+   w / sum(w) (Gen/C02_public.v: the return expression evaluated symbolically), so the weights it hands out are
+   non-negative and sum to one whenever the raw densities are non-negative with a positive sum *)
+From SM Require Import Gen.C02_public.
+Theorem C02_code_returned_weights : public_translated = true -> forall w,
+  code_returned_weights w = map (fun x => x / sumL ROps w) w.
+Proof.
+  intros Ht. try solve [vm_compute in Ht; discriminate Ht].
+  all: intros w; unfold code_returned_weights; cbv zeta; rewrite map_id; reflexivity.
+Qed.
+Print Assumptions C02_code_returned_weights.
+Theorem C02_code_normalised : public_translated = true -> forall w, Forall (fun x => 0 <= x) w -> 0 < sumL ROps w ->
+  Forall (fun x => 0 <= x) (code_returned_weights w) /\ sumL ROps (code_returned_weights w) = 1.
+Proof. intros Ht w H Hp. rewrite (C02_code_returned_weights Ht w). exact (C02_normalised w H Hp). Qed.
+Print Assumptions C02_code_normalised.
